@@ -176,7 +176,7 @@ func (p *Program) LoadContracts(specDir string) error {
 				}
 			}
 		}
-		return p.Spec.ParseSpecText(lines, srcs)
+		return p.Spec.ParseSpecTextIn(lines, srcs, pkgPath)
 	})
 	return err
 }
